@@ -46,6 +46,9 @@ if __name__ == "__main__":
         items.append(("regress/" + os.path.basename(p)[:-5], os.path.basename(p)[:3], p))
     for d in sorted(glob.glob(os.path.join(V, "seeded/*/"))):
         m = os.path.join(d, "meta.json")
+        if os.path.exists(m) and json.load(open(m)).get("neutralised_by"):
+            print("%-58s skipped: %s" % ("seeded/" + os.path.basename(d.rstrip("/")), json.load(open(m))["neutralised_by"][:90]))
+            continue
         if os.path.exists(m):
             items.append(("seeded/" + os.path.basename(d.rstrip("/")), json.load(open(m))["property"], os.path.join(d, "patch.diff")))
     items = [i for i in items if pat in i[0]]
